@@ -172,8 +172,10 @@ type apiHarness struct{ plan [][]int }
 
 func (h apiHarness) Start(s *vsched.Sched) vsched.World {
 	w := &apiWorld{s: s, plan: h.plan, prog: make([]int, len(h.plan)), outs: make([]string, len(h.plan))}
-	sc := tengo.NewScript([]byte(`out := a + 1`))
+	// the script also mutates a container global in place (Clone must not read it concurrently)
+	sc := tengo.NewScript([]byte(`arr[0] += 1; out := a + 1`))
 	_ = sc.Add("a", 1)
+	_ = sc.Add("arr", []interface{}{0})
 	c, err := sc.Compile()
 	if err != nil {
 		panic(err)
@@ -226,7 +228,7 @@ func (w *apiWorld) do(op int) string {
 		return fmt.Sprint(c.RunContext(context.Background()))
 	case "Clone":
 		cl := c.Clone()
-		r := "a=" + objStr(cl.Get("a").Object()) + ";out=" + objStr(cl.Get("out").Object())
+		r := "a=" + objStr(cl.Get("a").Object()) + ";arr=" + objStr(cl.Get("arr").Object()) + ";out=" + objStr(cl.Get("out").Object())
 		_ = cl.Set("a", 99) // must not affect the original
 		return r
 	}
@@ -237,6 +239,7 @@ func (w *apiWorld) do(op int) string {
 type apiState struct {
 	a   int
 	out string // "undefined" or "int:N"
+	arr int    // arr[0]
 }
 
 var apiModel = porcupine.Model{
@@ -244,7 +247,7 @@ var apiModel = porcupine.Model{
 	Step: func(state, input, output interface{}) (bool, interface{}) {
 		st := state.(apiState)
 		got := output.(string)
-		all := func() string { return fmt.Sprintf("a=int:%d;out=%s", st.a, st.out) }
+		all := func() string { return fmt.Sprintf("a=int:%d;arr=array[int:%d];out=%s", st.a, st.arr, st.out) }
 		switch apiOps[input.(int)] {
 		case "Set(a,5)":
 			st.a = 5
@@ -261,6 +264,7 @@ var apiModel = porcupine.Model{
 		case "IsDefined(out)":
 			return got == fmt.Sprint(st.out != "undefined"), st
 		case "Run", "RunContext":
+			st.arr++
 			st.out = fmt.Sprintf("int:%d", st.a+1)
 			return got == "<nil>", st
 		}
